@@ -1,4 +1,364 @@
-(* Cli.v -- stub; the model that belongs here is being written. *)
+(* Cli.v -- model of the decision logic of py7zr/cli.py (the `py7zr` command).
+
+   What is modelled, line by line of cli.py:
+     * Cli.dunits, Cli.unit_pattern = re.compile(r"^([0-9]+)([bkmg]?)$", re.IGNORECASE),
+       _check_volumesize_valid, _volumesize_unitconv           (volume sizes of `c -v SIZE`)
+     * the mapping from what the library calls do (return / raise which exception class)
+       to what run_test / run_extract / run_list / run_create / run_append return,
+       exit(1) paths included, and from that to the exit status of `python -m py7zr`
+       (__main__.py: sys.exit(Cli().run())).
+     * the volume-suffix test of run_list (re.fullmatch(r"[.]0+1?", target.suffix)).
+   Strings are lists of Unicode code points (Z).  Definitions only; proofs are in CliProofs.v. *)
 From P7 Require Import Prelude.
 Open Scope Z_scope.
-Definition cli_dispatch (fn : Z) (a : tree) : tree := TL [TI (-2)].
+
+Definition str := list Z.
+
+(* ------------------------------------------------------------------ volume sizes *)
+
+Definition is_digit (c : Z) : bool := (48 <=? c) && (c <=? 57).                 (* [0-9] *)
+Definition is_unit_lower (c : Z) : bool :=                                      (* b k m g *)
+  (c =? 98) || (c =? 107) || (c =? 109) || (c =? 103).
+Definition is_unit_ascii (c : Z) : bool :=                                      (* + B K M G *)
+  is_unit_lower c || (c =? 66) || (c =? 75) || (c =? 77) || (c =? 71).
+(* [bkmg] under re.IGNORECASE on a str pattern: the ASCII letters of both cases and U+212A
+   KELVIN SIGN, whose lower case is 'k' (sre's extra case table) *)
+Definition is_unit_ci (c : Z) : bool := is_unit_ascii c || (c =? 8490).
+
+Fixpoint span_digits (s : str) : str * str :=
+  match s with
+  | c :: r => if is_digit c then (let '(d, t) := span_digits r in (c :: d, t)) else ([], s)
+  | [] => ([], [])
+  end.
+
+(* self.unit_pattern.match(size): Some (group 1, group 2).  Group 2 is "" (never None) when no
+   unit letter is present; `$` also matches just before a final "\n". *)
+Definition unit_pattern_match (s : str) : option (str * str) :=
+  let '(num, rest) := span_digits s in
+  match num with
+  | [] => None
+  | _ :: _ =>
+    match rest with
+    | [] => Some (num, [])
+    | [c] => if c =? 10 then Some (num, []) else if is_unit_ci c then Some (num, [c]) else None
+    | [c; d] => if is_unit_ci c && (d =? 10) then Some (num, [c]) else None
+    | _ => None
+    end
+  end.
+
+Definition check_volumesize_valid (s : str) : bool :=
+  match unit_pattern_match s with Some _ => true | None => false end.
+
+(* Cli.dunits[unit]; None = KeyError *)
+Definition dunits (u : str) : option Z :=
+  match u with
+  | [c] =>
+    if (c =? 98) || (c =? 66) then Some 1
+    else if (c =? 107) || (c =? 75) then Some 1024
+    else if (c =? 109) || (c =? 77) then Some (1024 * 1024)
+    else if (c =? 103) || (c =? 71) then Some (1024 * 1024 * 1024)
+    else None
+  | _ => None
+  end.
+
+Fixpoint int_of_digits_acc (acc : Z) (s : str) : Z :=
+  match s with [] => acc | c :: r => int_of_digits_acc (10 * acc + (c - 48)) r end.
+Definition int_of_digits (s : str) : Z := int_of_digits_acc 0 s.
+
+(* int(num) of a string of ASCII digits: CPython refuses more than sys.int_info.default_max_str_digits
+   = 4300 digits (leading zeros counted) with ValueError *)
+Definition max_str_digits : Z := 4300.
+Definition py_int (num : str) : option Z :=
+  if max_str_digits <? Z.of_nat (length num) then None else Some (int_of_digits num).
+
+Inductive ucres := UcOk (n : Z) | UcKeyError | UcValueError.
+
+(* _volumesize_unitconv.  `int(num) if unit is None else int(num) * self.dunits[unit]`: the
+   `unit is None` arm is dead (group 2 always participates), so a size without a unit letter looks up
+   dunits[""]; int(num) is evaluated before the lookup. *)
+Definition volumesize_unitconv_x (s : str) : ucres :=
+  match unit_pattern_match s with
+  | Some (num, unit) =>
+    match py_int num with
+    | None => UcValueError
+    | Some n => match dunits unit with Some m => UcOk (n * m) | None => UcKeyError end
+    end
+  | None => UcOk (-1)
+  end.
+
+Definition volumesize_unitconv (s : str) : res Z :=
+  match volumesize_unitconv_x s with UcOk n => Ok n | _ => Err EOther end.
+
+(* The documented grammar: docs/user_guide.rst ".. option:: -v | --volume {Size}[b|k|m|g]"
+   (changelog: "CLI: '-v {size}[b|k|m|g]' multi volume creation option"): a decimal number,
+   optionally followed by one of b k m g. *)
+Definition in_help_grammar (s : str) : bool :=
+  let '(num, rest) := span_digits s in
+  match num with
+  | [] => false
+  | _ :: _ => match rest with [] => true | [c] => is_unit_lower c | _ => false end
+  end.
+
+Definition has_unit_suffix (s : str) : bool :=
+  match snd (span_digits s) with [] => false | _ => true end.
+
+(* multiplier a unit letter denotes (7-Zip's -v switch: bytes, KiB, MiB, GiB) *)
+Definition unit_multiplier (c : Z) : Z :=
+  if (c =? 107) || (c =? 75) then 1024
+  else if (c =? 109) || (c =? 77) then 1024 ^ 2
+  else if (c =? 103) || (c =? 71) then 1024 ^ 3
+  else 1.
+
+(* the number of bytes a documented size denotes *)
+Definition help_size (s : str) : Z :=
+  let '(num, rest) := span_digits s in
+  int_of_digits num * match rest with c :: _ => unit_multiplier c | [] => 1 end.
+
+(* ------------------------------------------------------------------ exit-status logic *)
+
+(* exception classes the except clauses of cli.py distinguish (everything else is XOther:
+   AttributeError, TypeError, OSError, EOFError, struct.error, InternalError, zlib.error ...).
+   CrcError carries whether its filename argument (args[2]) is a member name or None
+   (py7zr.py l.1509: folder-level digest mismatch raises CrcError(crc, digest, None)). *)
+Inductive exc := XBad7z | XPassword | XUnsupported | XDecompression | XLzma | XCrc (named : bool)
+               | XKeyError | XValueError | XOther.
+
+(* what one sub-command run does: return a value (None = Python None), call exit(n), or let an
+   exception escape *)
+Inductive cli_result := RRet (v : option Z) | RExit (n : Z) | RRaise (e : exc).
+
+(* __main__: sys.exit(main()): None -> 0, int -> that; SystemExit(n) -> n; uncaught exception ->
+   traceback and status 1 *)
+Definition proc_status (r : cli_result) : Z :=
+  match r with RRet None => 0 | RRet (Some n) => n | RExit n => n | RRaise _ => 1 end.
+
+(* None = uncaught exception (traceback) *)
+Definition status_of (r : cli_result) : option Z :=
+  match r with RRet None => Some 0 | RRet (Some n) => Some n | RExit n => Some n | RRaise _ => None end.
+
+(* What the library calls made by one sub-command do.
+     l_is7z          py7zr.is_7zfile(target)
+     l_getpass_warn  getpass.getpass() raises GetPassWarning (only asked with -P)
+     l_open          py7zr.SevenZipFile(...) raises
+     l_info          print_archiveinfo(a) (t) / a.archiveinfo() (l; x --verbose) raises
+     l_work          t: Worker.extract inside a.testzip(); x: a.extractall(); l: a.list();
+                     c, a: write/writeall/close *)
+Record lib := { l_is7z : bool; l_getpass_warn : bool; l_open : option exc; l_info : option exc;
+                l_work : option exc }.
+
+(* SevenZipFile.testzip (py7zr.py l.1195-1207): except CrcError as crce: return crce.args[2] *)
+Inductive tz := TzNone | TzName | TzRaise (e : exc).
+Definition testzip (work : option exc) : tz :=
+  match work with
+  | None => TzNone
+  | Some (XCrc true) => TzName
+  | Some (XCrc false) => TzNone          (* args[2] is None: indistinguishable from "good" *)
+  | Some e => TzRaise e
+  end.
+
+(* run_test: one try block around open / print_archiveinfo / testzip *)
+Definition test_handler (e : exc) : cli_result :=
+  match e with
+  | XBad7z => RRet (Some 1)
+  | XPassword => RRet (Some 1)
+  | _ => RRaise e
+  end.
+
+Definition run_test (L : lib) : cli_result :=
+  if negb (l_is7z L) then RRet (Some 1) else
+  match l_open L with Some e => test_handler e | None =>
+  match l_info L with Some e => test_handler e | None =>
+  match testzip (l_work L) with
+  | TzNone => RRet (Some 0)
+  | TzName => RRet (Some 1)
+  | TzRaise e => test_handler e
+  end end end.
+
+(* run_extract: lzma.LZMAError and _lzma.LZMAError are one class *)
+Definition extract_open_handler (e : exc) : cli_result :=
+  match e with
+  | XBad7z => RRet (Some 1)
+  | XPassword => RRet (Some 1)
+  | XLzma => RRet (Some 1)
+  | _ => RRaise e
+  end.
+
+Definition extract_work_handler (e : exc) : cli_result :=
+  match e with
+  | XUnsupported => RRet (Some 1)
+  | XDecompression => RRet (Some 1)
+  | XPassword => RRet (Some 1)
+  | XLzma => RRet (Some 1)
+  | _ => RRaise e
+  end.
+
+Definition run_extract (pwflag verbose : bool) (L : lib) : cli_result :=
+  if negb (l_is7z L) then RRet (Some 1) else
+  if pwflag && l_getpass_warn L then RRet (Some 1) else
+  match l_open L with Some e => extract_open_handler e | None =>
+  match (if verbose then l_info L else None) with Some e => RRaise e | None =>
+  match l_work L with Some e => extract_work_handler e | None => RRet (Some 0) end end end.
+
+(* run_list / _run_list: no try at all *)
+Definition run_list (L : lib) : cli_result :=
+  if negb (l_is7z L) then RRet (Some 1) else
+  match l_open L with Some e => RRaise e | None =>
+  match l_info L with Some e => RRaise e | None =>
+  match l_work L with Some e => RRaise e | None => RRet (Some 0) end end end.
+
+(* run_list, volume branch: re.fullmatch(r"[.]0+1?", target.suffix) -> MultiVolume(ext_digits =
+   len(suffix) - 1, ext_start = int(suffix[-1])) *)
+Fixpoint span_zeros (s : str) : str * str :=
+  match s with
+  | c :: r => if c =? 48 then (let '(d, t) := span_zeros r in (c :: d, t)) else ([], s)
+  | [] => ([], [])
+  end.
+
+Definition list_volume_args (suffix : str) : option (Z * Z) :=
+  match suffix with
+  | c :: r =>
+    if c =? 46 then
+      let '(zs, t) := span_zeros r in
+      match zs with
+      | [] => None
+      | _ :: _ =>
+        match t with
+        | [] => Some (Z.of_nat (length suffix) - 1, 0)
+        | [d] => if d =? 49 then Some (Z.of_nat (length suffix) - 1, 1) else None
+        | _ => None
+        end
+      end
+    else None
+  | [] => None
+  end.
+
+(* str.endswith(".7z") *)
+Definition ends_with_7z (s : str) : bool :=
+  match rev s with 122 :: 55 :: 46 :: _ => true | _ => false end.
+
+Definition dot7z : str := [46; 55; 122].
+
+(* the library part of c / a: open the archive for writing, write the members, close *)
+Definition write_steps (L : lib) : cli_result :=
+  match l_open L with Some e => RRaise e | None =>
+  match l_work L with Some e => RRaise e | None => RRet (Some 0) end end.
+
+(* run_create: result, the archive path used, the volume size handed to multivolumefile.
+   exists_ = pathlib.Path(<normalised name>).exists() *)
+Definition create_target (arc : str) : str := if ends_with_7z arc then arc else arc ++ dot7z.
+
+Definition run_create (volume : option str) (arc : str) (exists_ pwflag : bool) (L : lib)
+  : cli_result * str * option Z :=
+  let target := create_target arc in
+  let invalid := match volume with Some v => negb (check_volumesize_valid v) | None => false end in
+  if invalid then (RExit 1, target, None) else
+  if exists_ then (RExit 1, target, None) else
+  if pwflag && l_getpass_warn L then (RRet (Some 1), target, None) else
+  match volume with
+  | None => (write_steps L, target, None)
+  | Some v =>
+    match volumesize_unitconv_x v with
+    | UcKeyError => (RRaise XKeyError, target, None)
+    | UcValueError => (RRaise XValueError, target, None)
+    | UcOk size => (write_steps L, target, Some size)
+    end
+  end.
+
+Definition run_append (arc : str) (exists_ : bool) (L : lib) : cli_result :=
+  if negb (ends_with_7z arc) then RExit 1 else
+  if negb exists_ then RExit 1 else write_steps L.
+
+(* Cli.run: --version wins over the sub-command; show_version and run_info return None;
+   no sub-command: show_help returns 0 *)
+Definition cli_run (version : bool) (r : cli_result) : cli_result :=
+  if version then RRet None else r.
+Definition run_info : cli_result := RRet None.
+Definition show_help : cli_result := RRet (Some 0).
+
+(* the interface of DESIGN.md: status per sub-command and library behaviour, None = traceback *)
+Inductive subcmd := CmdL | CmdX (pwflag verbose : bool) | CmdT | CmdI.
+Definition cli_result_of (cmd : subcmd) (L : lib) : cli_result :=
+  match cmd with
+  | CmdL => run_list L
+  | CmdX p v => run_extract p v L
+  | CmdT => run_test L
+  | CmdI => run_info
+  end.
+Definition cli_status (cmd : subcmd) (L : lib) : option Z := status_of (cli_result_of cmd L).
+
+(* "the requested operation succeeded": every library step the sub-command performs completed *)
+Definition no_exc (o : option exc) : bool := match o with None => true | Some _ => false end.
+Definition test_success (L : lib) : bool :=
+  l_is7z L && no_exc (l_open L) && no_exc (l_info L) && no_exc (l_work L).
+Definition extract_success (pwflag verbose : bool) (L : lib) : bool :=
+  l_is7z L && negb (pwflag && l_getpass_warn L) && no_exc (l_open L)
+  && (if verbose then no_exc (l_info L) else true) && no_exc (l_work L).
+Definition list_success (L : lib) : bool :=
+  l_is7z L && no_exc (l_open L) && no_exc (l_info L) && no_exc (l_work L).
+
+Definition write_ok (L : lib) : bool := no_exc (l_open L) && no_exc (l_work L).
+
+(* concrete library behaviours used by the Examples of props/C19.v *)
+Definition L_ok : lib := {| l_is7z := true; l_getpass_warn := false; l_open := None; l_info := None; l_work := None |}.
+Definition L_unsupported : lib :=
+  {| l_is7z := true; l_getpass_warn := false; l_open := None; l_info := None; l_work := Some XUnsupported |}.
+
+(* ------------------------------------------------------------------ driver protocol *)
+
+Definition exc_code (e : exc) : Z :=
+  match e with XBad7z => 1 | XPassword => 2 | XUnsupported => 3 | XDecompression => 4 | XLzma => 5
+             | XCrc true => 6 | XCrc false => 7 | XKeyError => 8 | XValueError => 9 | XOther => 10 end.
+Definition exc_of_code (z : Z) : exc :=
+  if z =? 1 then XBad7z else if z =? 2 then XPassword else if z =? 3 then XUnsupported
+  else if z =? 4 then XDecompression else if z =? 5 then XLzma else if z =? 6 then XCrc true
+  else if z =? 7 then XCrc false else if z =? 8 then XKeyError else if z =? 9 then XValueError else XOther.
+
+Definition t_result (r : cli_result) : tree :=
+  match r with
+  | RRet None => TL [TI 0]
+  | RRet (Some n) => TL [TI 0; TI n]
+  | RExit n => TL [TI 1; TI n]
+  | RRaise e => TL [TI 2; TI (exc_code e)]
+  end.
+Definition of_oexc (t : tree) : option exc := of_opt (fun x => exc_of_code (of_TI x)) t.
+(* (is7z getpass_warn open info work) *)
+Definition of_lib (t : tree) : lib :=
+  {| l_is7z := of_bool (tnth t 0); l_getpass_warn := of_bool (tnth t 1); l_open := of_oexc (tnth t 2);
+     l_info := of_oexc (tnth t 3); l_work := of_oexc (tnth t 4) |}.
+Definition t_ucres (u : ucres) : tree :=
+  match u with UcOk n => TL [TI 0; TI n] | UcKeyError => TL [TI 1] | UcValueError => TL [TI 2] end.
+
+Definition cli_dispatch (fn : Z) (a : tree) : tree :=
+  match fn with
+  (* FN 300 cli_check_volumesize_valid : str -> bool *)
+  | 300 => t_bool (check_volumesize_valid (of_bytes a))
+  (* FN 301 cli_volumesize_unitconv : str -> (0 n) | (1) KeyError | (2) ValueError *)
+  | 301 => t_ucres (volumesize_unitconv_x (of_bytes a))
+  (* FN 302 cli_in_help_grammar : str -> bool *)
+  | 302 => t_bool (in_help_grammar (of_bytes a))
+  (* FN 303 cli_help_size : str -> int *)
+  | 303 => TI (help_size (of_bytes a))
+  (* FN 304 cli_run_test : lib -> result *)
+  | 304 => t_result (run_test (of_lib a))
+  (* FN 305 cli_run_extract : (pwflag verbose lib) -> result *)
+  | 305 => t_result (run_extract (of_bool (tnth a 0)) (of_bool (tnth a 1)) (of_lib (tnth a 2)))
+  (* FN 306 cli_run_list : lib -> result *)
+  | 306 => t_result (run_list (of_lib a))
+  (* FN 307 cli_run_create : (volume_opt arc exists pwflag lib) -> (result target volsize_opt) *)
+  | 307 => let '(r, tg, vs) := run_create (of_opt of_bytes (tnth a 0)) (of_bytes (tnth a 1)) (of_bool (tnth a 2))
+                                          (of_bool (tnth a 3)) (of_lib (tnth a 4)) in
+           TL [t_result r; t_bytes tg; t_opt TI vs]
+  (* FN 308 cli_run_append : (arc exists lib) -> result *)
+  | 308 => t_result (run_append (of_bytes (tnth a 0)) (of_bool (tnth a 1)) (of_lib (tnth a 2)))
+  (* FN 309 cli_list_volume_args : suffix -> () | ((ext_digits ext_start)) *)
+  | 309 => t_opt (fun '(d, s) => TL [TI d; TI s]) (list_volume_args (of_bytes a))
+  (* FN 310 cli_proc_status : (version cmd lib) -> status ; cmd 0=l 1=x 2=x-P 3=x--verbose 4=x-P--verbose 5=t 6=i *)
+  | 310 => let v := of_bool (tnth a 0) in
+           let c := of_TI (tnth a 1) in
+           let L := of_lib (tnth a 2) in
+           let cmd := if c =? 0 then CmdL else if c =? 1 then CmdX false false else if c =? 2 then CmdX true false
+                      else if c =? 3 then CmdX false true else if c =? 4 then CmdX true true
+                      else if c =? 5 then CmdT else CmdI in
+           TI (proc_status (cli_run v (cli_result_of cmd L)))
+  | _ => TL [TI (-2)]
+  end.
